@@ -57,6 +57,13 @@ func (e *HTTPErrorExpr) Validate() *eval.ValidationErrors {
 		return verr
 	}
 
+	// validate body attribute
+	if e.Response.Body != nil {
+		if o, ok := e.Response.Body.Meta["origin:attribute"]; ok && ee.AttributeExpr.Find(o[0]) == nil {
+			verr.Add(e.Response, "body %q has no equivalent attribute in error type", o[0])
+		}
+	}
+
 	// validate headers
 	if e.Response.Headers != nil && !e.Response.Headers.IsEmpty() {
 		verr.Merge(e.Response.Headers.Validate("HTTP error response headers", e.Response))
